@@ -48,6 +48,7 @@ type Env struct {
 	trigSeen                         map[int]bool
 	startKey                         map[int]int
 	subInc, subDec, trigInc, trigDec int
+	decBy                            map[int64]int // goroutine id -> subscriptions it reported as removed (SubscriptionCountDec)
 	violations                       []string
 }
 
@@ -117,6 +118,13 @@ func (e *Env) drain() []string {
 }
 
 // ---- recording writer
+//
+// The writer is a parking point of the cooperative scheduler: every call on it is an interval.  The
+// entry of a call is logged as (w sid kind ev), the goroutine then parks at "ext.w" INSIDE the call
+// (in the real code it holds writeMu there) and the return is logged as (we sid kind ev) once it is
+// released.  A response is written in several chunks: the message Write is entered at the chunk that
+// identifies the event (parked there), and returns when the next writer call (Flush) is made or the
+// scripted failure is reported.
 type recWriter struct {
 	env     *Env
 	sid     int
@@ -124,6 +132,7 @@ type recWriter struct {
 	lastEv  int
 	buf     []byte
 	bufLate bool
+	open    int          // event of the message Write in progress (-2: none)
 	busy    atomic.Int32 // writer calls in progress (writes_exclusive on the implementation side)
 }
 
@@ -155,22 +164,26 @@ func parseCounter(p []byte) int {
 	return n
 }
 
-func (w *recWriter) call(kind string, e int) { w.callLate(kind, e, false) }
-
-func (w *recWriter) callLate(kind string, e int, forceLate bool) {
+// ev logs the entry ("w") or the return ("we") of a writer call.
+func (w *recWriter) ev(tag, kind string, e int, forceLate bool) {
 	w.env.mu.Lock()
 	w.env.seq++
 	late := ""
 	if rt := w.env.subs[w.sid]; forceLate || (rt != nil && rt.gone != 0) {
 		late = " late"
-		w.env.violations = append(w.env.violations, fmt.Sprintf("%s on %d after gone", kind, w.sid))
+		w.env.violations = append(w.env.violations, fmt.Sprintf("%s %s on %d after gone", tag, kind, w.sid))
 	}
-	w.env.obs = append(w.env.obs, fmt.Sprintf("(w %d %s %d%s)", w.sid, kind, e, late))
+	w.env.obs = append(w.env.obs, fmt.Sprintf("(%s %d %s %d%s)", tag, w.sid, kind, e, late))
 	w.env.mu.Unlock()
 }
 
-// A response is written in several chunks; the message is logged once (at the failing chunk, or
-// at Flush), with the lateness of its first chunk.
+// call = one whole writer call: entry, park inside, return.
+func (w *recWriter) call(kind string, e int) {
+	w.ev("w", kind, e, false)
+	w.env.sched.Yield("ext.w")
+	w.ev("we", kind, e, false)
+}
+
 func (w *recWriter) Write(p []byte) (int, error) {
 	w.enter()
 	defer w.leave()
@@ -181,27 +194,47 @@ func (w *recWriter) Write(p []byte) (int, error) {
 		w.env.mu.Unlock()
 	}
 	w.buf = append(w.buf, p...)
+	if w.open != -2 {
+		return len(p), nil // the rest of a message whose Write is already in progress
+	}
 	e := parseCounter(w.buf)
-	if e >= 0 && e == w.cfg.WFail {
+	if e < 0 {
+		return len(p), nil
+	}
+	w.lastEv = e
+	if e == w.cfg.WFail {
 		w.buf = w.buf[:0]
-		w.lastEv = e
-		w.call("writefail", e)
+		w.ev("w", "writefail", e, w.bufLate)
+		w.env.sched.Yield("ext.w")
+		w.ev("we", "writefail", e, false)
 		return 0, errors.New("scripted write failure")
 	}
+	w.open = e
+	w.ev("w", "write", e, w.bufLate)
+	w.env.sched.Yield("ext.w")
 	return len(p), nil
 }
-func (w *recWriter) flushBuf() {
-	if len(w.buf) > 0 {
-		e := parseCounter(w.buf)
+
+// closeMsg: the message Write in progress returns (the next writer call is being made).
+func (w *recWriter) closeMsg() {
+	if w.open != -2 {
+		e := w.open
+		w.open = -2
 		w.buf = w.buf[:0]
-		w.lastEv = e
-		w.callLate("write", e, w.bufLate)
+		w.ev("we", "write", e, false)
+		return
+	}
+	if len(w.buf) > 0 { // a message without an event number (not produced by the scenarios)
+		w.buf = w.buf[:0]
+		w.lastEv = -1
+		w.ev("w", "write", -1, w.bufLate)
+		w.ev("we", "write", -1, false)
 	}
 }
 func (w *recWriter) Flush() error {
 	w.enter()
 	defer w.leave()
-	w.flushBuf()
+	w.closeMsg()
 	if w.lastEv >= 0 && w.lastEv == w.cfg.FFail {
 		w.call("flushfail", 0)
 		return errors.New("scripted flush failure")
@@ -209,11 +242,12 @@ func (w *recWriter) Flush() error {
 	w.call("flush", 0)
 	return nil
 }
-func (w *recWriter) Complete()         { w.enter(); defer w.leave(); w.call("complete", 0) }
-func (w *recWriter) Error(data []byte) { w.enter(); defer w.leave(); w.call("error", 0) }
+func (w *recWriter) Complete()         { w.enter(); defer w.leave(); w.closeMsg(); w.call("complete", 0) }
+func (w *recWriter) Error(data []byte) { w.enter(); defer w.leave(); w.closeMsg(); w.call("error", 0) }
 func (w *recWriter) Heartbeat() error {
 	w.enter()
 	defer w.leave()
+	w.closeMsg()
 	if w.cfg.HbFail {
 		w.call("hbfail", 0)
 		return errors.New("scripted heartbeat failure")
@@ -228,6 +262,8 @@ func (ew *errWriter) WriteError(ctx *resolve.Context, err error, res *resolve.Gr
 	if rw, ok := w.(*recWriter); ok {
 		rw.enter()
 		defer rw.leave()
+		rw.open = -2
+		rw.buf = rw.buf[:0]
 		rw.call("werr", 0)
 	}
 }
@@ -243,8 +279,10 @@ func (r *reporter) SubscriptionCountInc(n int) {
 	r.env.log("(subinc %d)", n)
 }
 func (r *reporter) SubscriptionCountDec(n int) {
+	gid := goid()
 	r.env.mu.Lock()
 	r.env.subDec += n
+	r.env.decBy[gid] += n
 	r.env.mu.Unlock()
 	r.env.log("(subdec %d)", n)
 }
@@ -405,7 +443,7 @@ func (e *Env) newSub(cfg SubCfg, src *source) *subRT {
 		},
 		Filter: flt,
 	}
-	w := &recWriter{env: e, sid: cfg.Sid, cfg: cfg, lastEv: -1}
+	w := &recWriter{env: e, sid: cfg.Sid, cfg: cfg, lastEv: -1, open: -2}
 	return &subRT{cfg: cfg, ctx: sc, cancel: cancel, w: w, plan: plan, rctx: rctx,
 		id: resolve.SubscriptionIdentifier{ConnectionID: resolve.ConnectionID(1000 + cfg.Conn), SubscriptionID: int64(cfg.Sid)}}
 }
